@@ -647,8 +647,11 @@ def _fit_windows(
     windows['range', 0] = center - width / 2
     windows['range', 1] = np.nextafter(center.values + width.value / 2, np.inf)
 
-    windows = _clip_to_data_range(data, windows)
     _separate_from_neighbors_in_place(center, windows, fit_parameters)
+    # Clip last: for estimates outside the data range, the separation limits lie
+    # outside the range, too, and would otherwise move window edges out again
+    # (producing inverted windows above the range).
+    windows = _clip_to_data_range(data, windows)
 
     return windows
 
